@@ -207,7 +207,7 @@ func c06UUID(h, k int) string { return fmt.Sprintf("m-%d-%d", h, k) }
 func c06Run(rt *hookrt.Runtime, sc *c06Scenario) {
 	rt.Reset()
 	rt.Filter(func(point string, keys []string) bool {
-		if strings.HasPrefix(point, "router.") || strings.HasPrefix(point, "api.") || strings.HasPrefix(point, "decorator.sub.") {
+		if strings.HasPrefix(point, "router.") || strings.HasPrefix(point, "api.") || strings.HasPrefix(point, "decorator.") {
 			return true
 		}
 		if point == "message.ack.locked" || point == "message.nack.locked" {
@@ -245,13 +245,6 @@ func c06Run(rt *hookrt.Runtime, sc *c06Scenario) {
 	for h := 0; h < nh; h++ {
 		rt.AddRule(&hookrt.ParkRule{Point: "api.wait.hc", Keys: []string{fmt.Sprintf("h%d", h)}, Until: "router.handler.handleclose.stop",
 			UntilKeys: []string{fmt.Sprintf("h%d", h)}, Timeout: 3 * time.Second})
-	}
-	var doneRules []*hookrt.ParkRule
-	for h := 0; h < nh; h++ {
-		for k := 0; k < sc.Handlers[h].NMsgs; k++ {
-			doneRules = append(doneRules, rt.AddRule(&hookrt.ParkRule{Point: "api.wait.done", Keys: []string{c06UUID(h, k)},
-				Until: "router.handler.msg.done", UntilKeys: []string{c06UUID(h, k)}, Timeout: 4 * time.Second}))
-		}
 	}
 	rt.AddRule(&hookrt.ParkRule{Point: "api.wait.w1", Until: "router.close.loops_done", Timeout: 3 * time.Second})
 	rt.AddRule(&hookrt.ParkRule{Point: "api.wait.w2", Until: "router.close.running_unlock", Timeout: 3 * time.Second})
@@ -392,6 +385,19 @@ func c06Run(rt *hookrt.Runtime, sc *c06Scenario) {
 		wave.Wait()
 		next++
 	}
+	// a late message per handler after the Close calls returned: refused when the subscription has ended,
+	// otherwise (Close reported an error and left the subscription open) it is handled like any other
+	for h := range sc.Handlers {
+		msg := message.NewMessage(c06UUID(h, sc.Handlers[h].NMsgs), []byte("late"))
+		verifhook.At("api.emit.call", fmt.Sprintf("h%d", h), msg.UUID)
+		if !subs[h].Emit(msg, 20*time.Millisecond) {
+			verifhook.At("api.emit.refused", fmt.Sprintf("h%d", h), msg.UUID)
+			continue
+		}
+		mu.Lock()
+		taken = append(taken, msg.UUID)
+		mu.Unlock()
+	}
 	verifhook.At("api.release")
 
 	// everything must come to rest: Run returns, handlers finish, emitters stop
@@ -415,13 +421,8 @@ func c06Run(rt *hookrt.Runtime, sc *c06Scenario) {
 	mu.Lock()
 	tk := append([]string(nil), taken...)
 	mu.Unlock()
-	for _, u := range tk {
-		verifhook.At("api.wait.done", u)
-	}
-	for _, r := range doneRules {
-		if r.TimedOut > 0 {
-			sc.Hung = append(sc.Hung, "a message taken from the subscriber was not handled to completion within 4 s: "+r.Keys[0])
-		}
+	if missing := c06WaitDone(rt, tk, 4*time.Second); missing != "" {
+		sc.Hung = append(sc.Hung, "a message taken from the subscriber was neither handled to completion nor given up by the decorator within 4 s: "+missing)
 	}
 	// every handleClose goroutine has decided (closed its subscriber or not) before the verdict
 	for h := range subs {
@@ -464,6 +465,38 @@ func c06Run(rt *hookrt.Runtime, sc *c06Scenario) {
 		verifhook.At("api.wait.w2")
 	}
 	time.Sleep(2 * time.Millisecond)
+}
+
+// c06WaitDone waits until every message the subscriber handed out has either been handled to completion
+// (router.handler.msg.done) or been given up by the subscriber decorator (decorator.pump.dropped_*).
+func c06WaitDone(rt *hookrt.Runtime, taken []string, d time.Duration) string {
+	deadline := time.Now().Add(d)
+	for {
+		fin := map[string]bool{}
+		for _, e := range rt.Log() {
+			switch e.Point {
+			case "router.handler.msg.done":
+				if len(e.Keys) > 1 {
+					fin[e.Keys[1]] = true
+				}
+			case "decorator.pump.dropped_ctx", "decorator.pump.dropped_closing":
+				if len(e.Keys) > 0 {
+					fin[e.Keys[0]] = true
+				}
+			}
+		}
+		missing := ""
+		for _, u := range taken {
+			if !fin[u] {
+				missing = u
+				break
+			}
+		}
+		if missing == "" || time.Now().After(deadline) {
+			return missing
+		}
+		time.Sleep(time.Millisecond)
+	}
 }
 
 // ---------------------------------------------------------------- scenarios
@@ -519,6 +552,12 @@ func c06Forced(honour bool) []*c06Scenario {
 		out = append(out, &c06Scenario{Name: p.name + "/concurrent-close/" + hn, Kind: "forced", Handlers: hs(p.publish), CloseTimeoutMs: 2500, Closers: 3,
 			Rules: []c06Rule{
 				{Point: p.point, Keys: keys, Until: "router.close.signal", TimeoutMs: 400},
+				{Point: "api.close.gate", Until: p.point, UntilKeys: keys, TimeoutMs: 400},
+			}})
+		// three concurrent Close callers that the message tries to outwait: none of them may return while it sits there
+		out = append(out, &c06Scenario{Name: p.name + "/concurrent-close-held/" + hn, Kind: "forced", Handlers: hs(p.publish), CloseTimeoutMs: 2500, Closers: 3,
+			Rules: []c06Rule{
+				{Point: p.point, Keys: keys, Until: "api.close.ret", TimeoutMs: 120},
 				{Point: "api.close.gate", Until: p.point, UntilKeys: keys, TimeoutMs: 400},
 			}})
 		// the user cancels Run's context while the message sits at the point; Close is called once Run returned (or 150 ms later)
